@@ -293,9 +293,9 @@ func main() {
 		Assumptions: []string{"parseAddr and readValue reached through verif hooks; the line is fed through the replaced line reader"},
 		Cases: func(t string) int {
 			if t == "thorough" {
-				return 150000
+				return 1500000
 			}
-			return 6000
+			return 15000
 		},
 		Floor: func(t string) int {
 			if t == "thorough" {
